@@ -98,6 +98,7 @@ impl Oracle for CrashOracle {
                                 "relays": g.relays,
                                 "mls": g.mls.as_ref().map(|m| (m.epoch, m.authenticator.clone(), m.members.clone(), m.tree_hash.clone())),
                                 "mls_err": g.mls_err,
+                                "snapshots": g.snapshots,
                             })
                         }
                     };
@@ -270,7 +271,7 @@ pub fn post(v: &Variant, out: &RunOutput) -> (Vec<Violation>, Vec<(String, u64)>
                     }
                 }
             }
-            let mut ticks: Vec<(u32, usize, u64, String, Op)> = vec![];
+            let mut ticks: Vec<(u32, usize, u64, String, Op, Vec<u64>)> = vec![];
             for s in &st {
                 if let Op::Deliver { ev } = &s.op {
                     let ok = match w.ev(*ev) {
@@ -283,7 +284,8 @@ pub fn post(v: &Variant, out: &RunOutput) -> (Vec<Violation>, Vec<(String, u64)>
                 }
                 let rec = w.exec(s);
                 let line = w.log.last().cloned().unwrap_or_default();
-                ticks.push((s.id, s.node, rec.ticks, line, s.op.clone()));
+                let txn_ticks: Vec<u64> = w.last_tick_labels.iter().enumerate().filter(|(_, l)| l.contains("Txn") || l.contains("Open")).map(|(i, _)| i as u64 + 1).collect();
+                ticks.push((s.id, s.node, rec.ticks, line, s.op.clone(), txn_ticks));
             }
             w.count_ticks = false;
             let withheld = gn.withheld.clone();
@@ -301,7 +303,7 @@ pub fn post(v: &Variant, out: &RunOutput) -> (Vec<Violation>, Vec<(String, u64)>
     // choose targets: one per operation kind, seeded
     let mut r = Rng::new(out.cfg.seed).fork(1212);
     let mut by_kind: BTreeMap<&'static str, Vec<usize>> = BTreeMap::new();
-    for (i, (_, node, t, line, op)) in ticks.iter().enumerate() {
+    for (i, (_, node, t, line, op, _)) in ticks.iter().enumerate() {
         if *t == 0 || !out.cfg.nodes[*node].backend.is_sqlite() {
             continue;
         }
@@ -314,17 +316,20 @@ pub fn post(v: &Variant, out: &RunOutput) -> (Vec<Violation>, Vec<(String, u64)>
         r.shuffle(&mut ix);
         targets.extend(ix.into_iter().take(n));
     }
-    let max_points = if thorough { 4000 } else { 40 };
+    let max_points = if thorough { 4000 } else { 60 };
     let mut points = 0usize;
     let mut seen_classes: BTreeSet<String> = BTreeSet::new();
     'outer: for ti in targets {
-        let (sid, node, t, line, op) = &ticks[ti];
+        let (sid, node, t, line, op, txn_ticks) = &ticks[ti];
         let kind = op_kind(line, op);
         // which ticks: thorough all; quick a seeded sample of <= 6 plus first and last
         let mut ks: Vec<u64> = (1..=*t).collect();
         if !thorough && ks.len() > 8 {
+            // every tick inside the explicit transactions / savepoints / constructors, plus a sample
             let mut pick: BTreeSet<u64> = [1, *t].into_iter().collect();
-            while pick.len() < 8 {
+            pick.extend(txn_ticks.iter().copied());
+            let want = pick.len() + 6;
+            while pick.len() < want.min(*t as usize) {
                 pick.insert(r.range(1, *t));
             }
             ks = pick.into_iter().collect();
